@@ -20,7 +20,7 @@ func (c17) Name() string { return "c17" }
 func (c17) Rule() string {
 	return "full-server simulation: 1..3 open documents (journal lines and arbitrary text, ASCII/BMP/non-BMP, LF/CRLF) sharing one server (the semantic-token cache is process-global), histories of 6..40 operations interleaving edits (all shapes of C01), didClose / re-open, semanticTokens/full, /range (random line ranges) and /full/delta with previousResultId drawn from {the id of the array the client holds, an older id of the same URI, the current id of ANOTHER URI, garbage, empty}. Client-side model: per URI the token array a client would hold and the id it came with. Oracles: (1) after every full/delta answer the client's array equals the data of a full request issued right afterwards; (2) a range answer equals the full answer decoded to absolute positions, restricted to the requested lines, re-encoded; (3) a delta (as opposed to a full result) is only returned against the id the server issued last for that URI, never against another document's id or a stale one, and ids are not reused within a URI; (4) every stream is well-formed: length multiple of 5, positions non-decreasing, no overlap, each token inside its line of the client's text (UTF-16), type index inside the advertised legend. Non-trivial: >= 1 delta answered with edits and >= 1 request with a stale/foreign id. Distinct: hash of (operation kinds, id kinds, schedule signature)."
 }
-func (c17) Enumerated(string) int           { return 0 }
+func (c17) Enumerated(string) int            { return 0 }
 func (c17) Components() ([]string, []string) { return serverComponents() }
 
 type tokAbs struct{ line, col, length, typ, mod int }
